@@ -379,6 +379,11 @@ func replayReceiver(b *behaviour, watchdog time.Duration, withTopic bool) (key, 
 			if err := m.MarshalCBOR(&buf); err != nil {
 				return "infra", err.Error(), i
 			}
+			// the watcher may still be on its way back to the top of its loop (a Next that has just returned freed the channel it
+			// was sending on): the counters are read once it waits again
+			if g := wGid.Load(); g != 0 {
+				waitParked(g, 500*time.Millisecond)
+			}
 			n0, s0 := wNext.Load(), wSend.Load()
 			if err := tp.Publish(context.Background(), buf.Bytes()); err != nil {
 				return "infra", "publish: " + err.Error(), i
